@@ -275,7 +275,20 @@ class FuncView:
             return expr
         defs = []
         for n in walk_no_nested(self.fi.node):
-            if isinstance(n, ast.Assign) and len(n.targets) == 1 and isinstance(n.targets[0], ast.Name) and n.targets[0].id == expr.id:
+            if isinstance(n, ast.Assign) and any(isinstance(t, ast.Name) and t.id == expr.id for t in n.targets):
+                defs.append(n.value)  # `x = <e>`, also as one link of a chain `a[0] = x = <e>`
+            elif isinstance(n, ast.Assign) and any(isinstance(t, (ast.Tuple, ast.List)) and any(isinstance(e, ast.Name) and e.id == expr.id for e in t.elts) for t in n.targets):
+                # parallel assignment `x, y = <ex>, <ey>`: the matching component; any other unpacking is no definition we follow
+                hit = None
+                for t in n.targets:
+                    if isinstance(t, (ast.Tuple, ast.List)) and isinstance(n.value, (ast.Tuple, ast.List)) and len(t.elts) == len(n.value.elts):
+                        for te, ve in zip(t.elts, n.value.elts):
+                            if isinstance(te, ast.Name) and te.id == expr.id:
+                                hit = ve
+                if hit is None:
+                    return expr
+                defs.append(hit)
+            elif isinstance(n, ast.NamedExpr) and isinstance(n.target, ast.Name) and n.target.id == expr.id:
                 defs.append(n.value)
             elif isinstance(n, (ast.AugAssign,)) and isinstance(n.target, ast.Name) and n.target.id == expr.id:
                 return expr
@@ -299,6 +312,9 @@ class FuncView:
                 elif isinstance(n, ast.Call) and isinstance(n.func, ast.Attribute) and isinstance(n.func.value, ast.Name) and (n.func.attr in MUTATING_METHODS or n.func.attr.startswith("add_") or n.func.attr.startswith("set_") or n.func.attr.startswith("remove_")):
                     m.add(n.func.value.id)
                 elif isinstance(n, ast.Attribute) and isinstance(n.ctx, ast.Store) and isinstance(n.value, ast.Name):
+                    m.add(n.value.id)
+                elif isinstance(n, ast.Attribute) and isinstance(n.ctx, ast.Load) and n.attr in MUTATING_METHODS and isinstance(n.value, ast.Name):
+                    # a bound mutator kept in a local (`add_visited = visited.add`) fills the container through the alias
                     m.add(n.value.id)
             self._mutated = m
         return m
@@ -404,6 +420,11 @@ class FuncView:
         par = self.parent.get(id(st)) if st is not None else None
         if isinstance(par, ast.If) and len(par.body) == 1 and par.body[0] is st and not par.orelse:
             t = par.test
+            if isinstance(t, ast.Name):
+                # `present = k in T; if present: del T[k]`
+                r = self.resolve(t)
+                if isinstance(r, ast.Compare):
+                    t = r
             if isinstance(t, ast.Compare) and len(t.ops) == 1 and isinstance(t.ops[0], ast.In):
                 tt = self.table_of(t.comparators[0])
                 if tt is not None and tt[1] == o.table and o.key is not None and norm(t.left) == norm(o.key):
@@ -414,9 +435,20 @@ class FuncView:
     def lifted(self, o: TOp) -> int:
         """CFG node standing for op `o` in must-pass-through questions: an op inside `for x in <...>` loops is
         represented by the outermost loop head (a loop body may run zero times only when there is nothing to do)."""
-        loops = self.enclosing_all(o.at, (ast.For,))
+        loops = [l for l in self.enclosing_all(o.at, (ast.For, ast.While)) if isinstance(l, ast.For) or self._index_scan(l)]
         node = loops[-1] if loops else o.at
-        return self.cfg.by_ast[id(node)]
+        nid = self.cfg.by_ast.get(id(node))
+        if nid is None and isinstance(node, ast.While):
+            nid = self.cfg.by_ast.get(id(node.test))
+        return nid if nid is not None else self.cfg.by_ast[id(o.at)]
+
+    def _index_scan(self, w: ast.While) -> bool:
+        """`while i < n: ...; i += 1` - the index-based spelling of `for x in seq`"""
+        t = w.test
+        if not (isinstance(t, ast.Compare) and len(t.ops) == 1 and isinstance(t.ops[0], (ast.Lt, ast.LtE, ast.NotEq)) and isinstance(t.left, ast.Name)):
+            return False
+        i = t.left.id
+        return any(isinstance(x, ast.AugAssign) and isinstance(x.target, ast.Name) and x.target.id == i and isinstance(x.op, ast.Add) for st in w.body for x in ast.walk(st))
 
     def must_id(self, o: TOp) -> int:
         """CFG node standing for a key-level op in must-pass-through questions: an op whose container is the loop
